@@ -3,7 +3,7 @@
 import json, os, re, shutil, sys, glob
 VERIF = os.path.dirname(os.path.dirname(os.path.abspath(__file__)))
 props = {json.loads(l)["id"]: json.loads(l) for l in open(os.path.join(VERIF, "properties.jsonl"))}
-for d in sorted(glob.glob("/tmp/sa/C*-[ab]/out/[AB]")):
+for d in sorted(glob.glob("/tmp/sa/C*-[abc]/out/[AB]")):
     ev = os.path.join(d, "eval.json")
     if not os.path.exists(ev):
         print("no eval:", d); continue
@@ -12,11 +12,13 @@ for d in sorted(glob.glob("/tmp/sa/C*-[ab]/out/[AB]")):
     letter = os.path.basename(d)
     if rnd == "b":          # second round of sub-agents (told which two mechanisms were already taken): changes C and D
         letter = {"A": "C", "B": "D"}[letter]
+    if rnd == "c":          # third round (told the four mechanisms already taken): change E
+        letter = {"A": "E", "B": "F"}[letter]
     sid = "%s-%s" % (pid, letter)
     conf = e.get("confirmed")
     if conf is None:
         # later re-evaluations used --skip-confirm: keep the first confirmation recorded in evals.log
-        for line in open("/tmp/sa/evals.log"):
+        for line in (open("/tmp/sa/evals.log") if os.path.exists("/tmp/sa/evals.log") else []):
             if line.startswith("{") and ('"dir":"%s"' % d) in line:
                 conf = json.loads(line).get("confirmed")
                 break
@@ -33,7 +35,8 @@ for d in sorted(glob.glob("/tmp/sa/C*-[ab]/out/[AB]")):
     meta = {"id": sid, "property": pid, "property_title": props[pid]["title"], "files_changed": [f.strip() for f in files],
             "needs_to_manifest": needs,
             "origin": "written by an independent sub-agent given only the property text and a scratch worktree of /repo" + (
-                "; second round: also told which two mechanisms (file, function, one line) earlier sub-agents had used, to force a different one" if rnd == "b" else ""),
+                "; second round: also told which two mechanisms (file, function, one line) earlier sub-agents had used, to force a different one" if rnd == "b" else
+                "; third round: also told which four mechanisms (file, function, one line) earlier sub-agents had used, to force a different one" if rnd == "c" else ""),
             "confirmation": {"ran": ["demo.py on a clean scratch worktree (exit 0 expected)", "git apply patch.diff; demo.py (non-zero exit expected)",
                                      "pinned test suite with the patch applied (151 passed expected)"],
                              "demo_clean_rc": 0, "demo_patched_rc": 1, "pinned_passed": 151, "tool": "tools/seeded_eval.py"}}
